@@ -107,7 +107,14 @@ class _Builder:
             own.append(self.param(item_file, "O_%s_%s" % (n, l), pdef(n, l, d["orient"] == "oT", g), d["odepth"]))
         if own:
             m["parameters"] = own
-        if d["body"] != "none":
+        if d["body"] == "form":
+            if v2:
+                m["parameters"] = own + [{"name": "f1", "in": "formData", "required": True, "type": "string", "maxLength": 6},
+                                         {"name": "f2", "in": "formData", "required": False, "type": "string"}]
+            else:
+                m["requestBody"] = {"required": True, "content": {"application/x-www-form-urlencoded": {"schema": {
+                    "maxProperties": 6, "properties": {"f1": {"type": "string", "maxLength": 6}, "f2": {"type": "string"}}, "required": ["f1"]}}}}
+        elif d["body"] != "none":
             props = {"on": {"type": "string"}, "no": {"type": "string"},
                      "v": {"type": "string", "format": "date", "default": "2020-01-01"}}
             if d["rec"]:
@@ -209,6 +216,9 @@ class _Builder:
                 scheme = {"$ref": self.ref("api", "shared/sec", "k")}
             if v2:
                 api["securityDefinitions"] = {"k": scheme}
+            elif d["sec"] == "refall":
+                self.put("shared/sec", "all", {"k": scheme})
+                api.setdefault("components", {})["securitySchemes"] = {"$ref": self.ref("api", "shared/sec", "all")}
             else:
                 api.setdefault("components", {}).setdefault("securitySchemes", {})["k"] = scheme
             root["security"] = [{"k": []}]
@@ -309,6 +319,9 @@ def _tag(schema) -> int:
     for k in ("maxLength", "maxProperties"):
         if isinstance(schema.get(k), int):
             return schema[k]
+    f1 = (schema.get("properties") or {}).get("f1")  # the form payload: identified by its first field
+    if isinstance(f1, dict) and isinstance(f1.get("maxLength"), int):
+        return f1["maxLength"]
     if schema.get("format") == "_basic_auth":
         return 90
     return 0
@@ -388,7 +401,11 @@ def access(schema, a: dict, d: dict | None = None) -> list[dict]:
 def observe(d: dict, ser: str, lay: str, h: list[dict]) -> list[dict]:
     import schemathesis
 
-    schema = schemathesis.openapi.from_path(ensure_files(d, ser, lay))
+    if lay == "stream":  # the other front door: an open file, no location, content sniffed (JSON first, then YAML)
+        with open(ensure_files(d, ser, "single")) as fd:
+            schema = schemathesis.openapi.from_file(fd)
+    else:
+        schema = schemathesis.openapi.from_path(ensure_files(d, ser, lay))
     if not d.get("secgen", True):
         from schemathesis.generation import GenerationConfig
 
@@ -607,7 +624,10 @@ def run(ctx: Ctx) -> Outcome:
         out.violations.append(Violation("C08:spec:" + inv, "design invariant %s violated in OpCache.tla" % inv,
                                         {"kind": "spec", "invariant": inv, "trace": res.counterexample[:60]}))
     index = {c[:4]: i for i, c in enumerate(cases)}
-    if not res.violated and (not cases or len(index) != len(cases) or len(cases) != res.distinct - 4 * len(_META)
+    consts = dict(re.findall(r"CONSTANT (\w+) = (\w+)", open(os.path.join(common.SPEC, cfg)).read()))
+    max_dev, diag = int(consts["MaxDev"]), consts["Diag"] == "TRUE"
+    n_init = sum((2 if diag and m["w"] == max_dev else 4) + (2 if m["w"] <= 1 else 0) for m in _META.values())
+    if not res.violated and (not cases or len(index) != len(cases) or len(cases) != res.distinct - n_init
                              or any(c[0] not in _META for c in cases)):
         raise tlc.TLCFailure("OpCache export incomplete: %d lines (%d distinct) for %d states, %d documents" % (
             len(cases), len(index), res.distinct, len(_META)))
@@ -665,7 +685,7 @@ def run(ctx: Ctx) -> Outcome:
                     smaller.extend((doc_id, ser, lay, h[:k] + h[k + 1:], j - 1) for k in range(j - 1))
                 if ser == "yaml":
                     smaller.append((doc_id, "json", lay, h, j))
-                if lay == "multi":
+                if lay in ("multi", "stream"):
                     smaller.append((doc_id, ser, "single", h, j))
                 for f, v in d.items():
                     if v != BASE[f]:
@@ -680,6 +700,8 @@ def run(ctx: Ctx) -> Outcome:
                     feats.append("yaml")
                 if lay == "multi":
                     feats.append("multi-file")
+                if lay == "stream":
+                    feats.append("from-file-object")
                 sig = "C08:" + why
                 others = [r for r in ("iter", "path", "id", "ref") if r != a[0]]
                 route_matters = j > 1 or any(fails_at(doc_id, ser, lay, ((r, a[1]),), 1, why) is False for r in others)
